@@ -165,7 +165,7 @@ fn csv_part(ctx: &mut Ctx) {
                 if n == 3 && quick && !((ni == 1 || ni == 3) && matches!(idx[0], 0 | 15 | 25)) {
                     continue;
                 }
-                if n == 3 && ni > 0 && ni != 3 && idx[0] % 5 != 0 {
+                if n == 3 && quick && ni > 0 && ni != 3 && idx[0] % 5 != 0 {
                     continue;
                 }
                 let mut args: Vec<String> = vec!["--output-style=csv".into()];
@@ -378,8 +378,9 @@ fn text_part(ctx: &mut Ctx) {
         }
         let o = opts_of(ix);
         let dev = ix.iter().filter(|x| **x != 0).count();
-        for n in 1..=2usize {
-            if n == 2 && dev > kmax.min(5) - 1 {
+        let widths = if ctx.tier == Tier::Thorough { 3usize } else { 2 };
+        for n in 1..=widths {
+            if n >= 2 && dev > kmax.min(5) - 1 && ctx.tier == Tier::Quick {
                 continue;
             }
             let mut todo: Vec<Vec<usize>> = Vec::new();
@@ -388,7 +389,7 @@ fn text_part(ctx: &mut Ctx) {
             for first in TEXT_VALS {
                 let rows: Vec<&Vec<usize>> = todo.iter().filter(|r| r[0] == first).collect();
                 let mut args = o.args();
-                let names = ["col a", "b"];
+                let names = ["col a", "b", "c;d"];
                 for j in 0..n {
                     args.push(format!("--select=.c{j}={}", names[j]));
                 }
